@@ -42,16 +42,16 @@ var properties = map[string]*Property{}
 
 // G is the generation context.
 type G struct {
-	Rnd   *rand.Rand
-	Tier  string
+	Rnd       *rand.Rand
+	Tier      string
 	sampleRnd *rand.Rand
 	// fnFilter, when set, drops emitted cases of other functions (a generator reused by another property)
 	fnFilter map[string]bool
-	prop  *Property
-	out   *bufio.Writer
-	stats *Stats
-	seen  map[uint64]struct{}
-	seenN map[uint64]struct{}
+	prop     *Property
+	out      *bufio.Writer
+	stats    *Stats
+	seen     map[uint64]struct{}
+	seenN    map[uint64]struct{}
 }
 
 // Stats is written as JSON next to the cases file.
@@ -326,11 +326,11 @@ func main() {
 		w = bufio.NewWriterSize(f, 1<<20)
 	}
 	g := &G{
-		Rnd:  rand.New(rand.NewPCG(seed, 0x9e3779b97f4a7c15)),
+		Rnd:       rand.New(rand.NewPCG(seed, 0x9e3779b97f4a7c15)),
 		sampleRnd: rand.New(rand.NewPCG(seed, 0x5a17)),
-		Tier: tier,
-		prop: prop,
-		out:  w,
+		Tier:      tier,
+		prop:      prop,
+		out:       w,
 		stats: &Stats{
 			ByFn: map[string]int{}, ByClass: map[string]int{}, Rule: prop.Rule, Seed: seed, Tier: tier,
 		},
